@@ -6,12 +6,17 @@ mod common;
 mod hc;
 mod c01;
 mod c02;
+mod c03;
+mod c04;
+mod drv;
+mod wire;
 mod c06;
 mod c08;
 mod c09;
 mod c10;
 mod expect;
 mod sgen;
+mod values;
 mod model;
 mod outscan;
 mod pipeline;
@@ -69,6 +74,8 @@ fn run(id: &str, tier: Tier) -> i32 {
     match id {
         "C01" => c01::run(tier),
         "C02" => c02::run(tier),
+        "C03" => c03::run(tier),
+        "C04" => c04::run(tier),
         "C06" => c06::run(tier),
         "C08" => c08::run(tier),
         "C09" => c09::run(tier),
@@ -94,6 +101,8 @@ fn replay(file: &str) -> i32 {
     match v["property"].as_str().unwrap_or("") {
         "C01" => c01::replay(&v["case"]),
         "C02" => c02::replay(&v["case"]),
+        "C03" => c03::replay(&v["case"]),
+        "C04" => c04::replay(&v["case"]),
         "C06" => c06::replay(&v["case"]),
         "C08" => c08::replay(&v["case"]),
         "C09" => c09::replay(&v["case"]),
